@@ -87,7 +87,7 @@ func (c *Case) unionText(lang string) string {
 func (c *Case) goEpilogue(v Variant) string {
 	terms := c.Terminals()
 	var sb strings.Builder
-	sb.WriteString("\nvar vhToks []int\nvar vhRed int\n")
+	sb.WriteString("\nvar vhToks []int\nvar vhRed int\nvar vhLate = os.Getenv(\"VH_LATETRACE\") == \"1\" // tracing is switched on by the first action of each run\n")
 	codes := []string{fmt.Sprint(unknownCode)}
 	for _, t := range terms {
 		codes = append(codes, codeExpr(t, "go"))
@@ -152,6 +152,9 @@ func vhLogR(i int) {
 		return
 	}
 	vhRed++
+	if vhLate && vhRed == 1 {
+		IsTrace = true
+	}
 	if vhRed > 600+40*len(vhToks) {
 		fmt.Printf("DIVERGE\n")
 		panic("vh-diverge")
@@ -257,6 +260,9 @@ func main() {
 			vhToks = append(vhToks, k)
 		}
 		vhRed = 0
+		if vhLate {
+			IsTrace = false
+		}
 		vhRunNo = n
 		fmt.Printf("BEGIN %d\n", n)
 		vhRunOne()
